@@ -242,6 +242,20 @@ func c19Replies(thorough bool, f func(c19Reply)) {
 			f(c19Reply{"other-packet-cut", fmt.Sprintf("%s, frame shortened to %d of %d bytes", o.desc, k, len(p)-4), q})
 		}
 	}
+	// the length field of every extension name / data string replaced (the frame itself stays whole)
+	for _, l := range [][]c19Pair{{{"a", "1"}}, {{"fsync@openssh.com", "1"}, {"b", ""}}} {
+		p := c19Version(sshFxpVersion, 3, l)
+		off := 9
+		for si := 0; off+4 <= len(p); si++ {
+			n := binary.BigEndian.Uint32(p[off:])
+			for _, lf := range []uint32{n + 1, n + 4, 255, 1<<16 - 1, 1<<31 - 1, 1 << 31, 1<<32 - 5, 1<<32 - 4, 1<<32 - 3, 1<<32 - 2, 1<<32 - 1} {
+				q := append([]byte{}, p...)
+				binary.BigEndian.PutUint32(q[off:], lf)
+				f(c19Reply{"string-length", fmt.Sprintf("VERSION version=3 ext=%s with the length of string %d set to %d", c19ListString(l), si, lf), q})
+			}
+			off += 4 + int(n)
+		}
+	}
 	for _, l := range reps {
 		p := c19Version(sshFxpVersion, 3, l)
 		n := uint32(len(p) - 4)
